@@ -566,6 +566,100 @@ func ruleC19Atomic(c *Ctx) {
 	default:
 		c.S.OK("R-C19-atomic-replace", key, c.Pos(rename.Pos()), "temporary file, closed, then renamed onto the final name")
 	}
+	// the final name is never removed: between an unlink and the rename the database has no snapshot at all
+	removedFinal := false
+	for _, in := range instrsOf(W) {
+		if call, ok := in.(*ssa.Call); ok {
+			if n := fullCalleeName(call); (n == "os.Remove" || n == "os.RemoveAll") && len(call.Call.Args) > 0 && isParam(call.Call.Args[0]) {
+				removedFinal = true
+				c.S.Bad("R-C19-atomic-replace", fnName(W)+":final-name-never-removed", c.Pos(call.Pos()), "the writer removes the final snapshot file (before renaming the new one onto it): a crash in between restarts with an empty database")
+			}
+		}
+	}
+	if !removedFinal {
+		c.S.OK("R-C19-atomic-replace", fnName(W)+":final-name-never-removed", c.Pos(W.Pos()), "only the temporary file is ever removed")
+	}
+	// the dirty flag is cleared only after the write succeeded: on the nil-error side of the writer call
+	fDirty := c.Field("redisDict", "dirty")
+	n := 0
+	for _, fn := range c.SrcFuncs() {
+		for _, in := range instrsOf(fn) {
+			st, ok := isStoreTo(in, fDirty)
+			if !ok {
+				continue
+			}
+			k, isC := st.Val.(*ssa.Const)
+			if !isC || k.Value == nil || k.Value.String() != "false" {
+				continue
+			}
+			if isFreshDeep(st.Addr.(*ssa.FieldAddr).X, 0) {
+				continue
+			}
+			// only the store that belongs to a save: the function calls (reaches) the writer
+			var wcall *ssa.Call
+			for _, in2 := range instrsOf(fn) {
+				if call, ok := in2.(*ssa.Call); ok {
+					if g := call.Call.StaticCallee(); g != nil && c.InPkg(g) && (g == W || g == pa.writer || c.M.Reach(g)[pa.writer]) {
+						wcall = call
+					}
+				}
+			}
+			if wcall == nil {
+				continue
+			}
+			n++
+			key := fmt.Sprintf("%s:dirty-cleared-after-success", fnName(fn))
+			okEdge := false
+			for _, rr := range referrers(wcall) {
+				var errv ssa.Value
+				switch x := rr.(type) {
+				case *ssa.Extract:
+					errv = x
+				case *ssa.BinOp:
+					errv = wcall
+					_ = x
+				case *ssa.Store:
+					errv = wcall
+				}
+				if errv == nil {
+					continue
+				}
+			}
+			// find the nil-test of the error produced by the writer call
+			for _, b := range fn.Blocks {
+				ifi, ok := b.Instrs[len(b.Instrs)-1].(*ssa.If)
+				if !ok {
+					continue
+				}
+				bo, ok := ifi.Cond.(*ssa.BinOp)
+				if !ok || (bo.Op != token.NEQ && bo.Op != token.EQL) || !(isNilConst(bo.X) || isNilConst(bo.Y)) {
+					continue
+				}
+				tested := bo.X
+				if isNilConst(bo.X) {
+					tested = bo.Y
+				}
+				if !sameStatus(tested, wcall) {
+					continue
+				}
+				nilSide := b.Succs[1]
+				if bo.Op == token.EQL {
+					nilSide = b.Succs[0]
+				}
+				if len(nilSide.Preds) == 1 && (nilSide == st.Block() || nilSide.Dominates(st.Block())) && instrDominates(wcall, st) {
+					okEdge = true
+				}
+			}
+			if okEdge {
+				c.S.OK("R-C19-atomic-replace", key, c.Pos(st.Pos()), "the database counts as clean only after the snapshot was written without error")
+			} else {
+				c.S.Bad("R-C19-atomic-replace", key, c.Pos(st.Pos()), fmt.Sprintf("%s clears the dirty flag on a path that is not the success side of the snapshot write: after a failed save the changes count as saved and are never written again", fnName(fn)))
+			}
+		}
+	}
+	if n == 0 {
+		c.S.Undecided("R-C19-atomic-replace", "dirty-cleared", "-", "no function clears the dirty flag around a call of the snapshot writer")
+	}
 }
 
 // ---------------------------------------------------------------- C14: database table
